@@ -49,6 +49,15 @@ def trigger_documents(tier):
     out.append(f"{{|\n|-\n|\n{{|\n|-\n| {sc} | <br/>\n|}}\n|}}\n")
     out.append(f"{{|\n|-\n|\n{{|\n|-\n| {sc} | text<ref name=\"a\"/> more\n| second\n|}}\n| outer\n|}}\n")
     out.append(f"{{|\n|-\n| <div {sc}>scroll</div> ||\n{{|\n|-\n| c1 || c2\n|-\n| d1 ||\n{{| border=\"1\"\n|-\n| e1 || e2\n|-\n| f1 || f2\n|}}\n|}}\n|}}\n")
+    # a bordered table inside a table caption (no Cell ancestor), below a 2-column table that is not an infobox
+    bt = "<table border=1><tr><td>x</td><td>y</td></tr><tr><td>x</td><td>y</td></tr></table>"
+    out.append(f"{long_text * 2}\n\n{{|\n|+ {bt}\n|-\n| a || b\n|}}\n")
+    out.append(f"{long_text * 2}\n\n<table><caption>{bt}</caption><tr><td>a</td><td>b</td></tr></table>\n")
+    # a colspan / rowspan value as the size of what a pass allocates (the table is split: class, big cells)
+    for n in ("1000000000", "20000000", "99999999999999999999"):
+        out.append(f'{long_text * 2}\n\n{{| class="mp-upper"\n|-\n| colspan={n} | a\n| b\n|-\n| c || d\n|}}\n')
+        out.append(f'{long_text * 2}\n\n{{| class="mp-upper"\n|-\n| rowspan={n} | a\n| b\n|-\n| c || d\n|}}\n')
+        out.append(f'{long_text * 2}\n\n{{|\n|-\n| colspan="{n}" | ' + ("word " * 600) + '\n| b\n| c\n|}\n')
     # attribute values that are numbers written in the wikitext
     out.append('intro\n\n{|\n|-\n| colspan="99999999999" | ' + ("word " * 600) + '\n| b\n| c\n|}\n')
     out.append('intro\n\n{|\n|-\n| colspan="3000000" | ' + ("word " * 1100) + '\n| b\n|}\n')
@@ -76,3 +85,11 @@ def trigger_documents(tier):
         for t in itertools.product(BLANKS, repeat=n):
             out.append("x" + "".join(t) + "y")
     return out
+
+
+def rtl_documents():
+    """formulas in every kind of parent (fix_math_dir writes the parent's attributes), for TreeCleaner(rtl=True)"""
+    m = "<math>x</math>"
+    return [m, f"<ul>{m}</ul>", f"<ol>{m}</ol>", f"* {m}", f": {m}", f"; a : {m}", f"<dl>{m}</dl>", f"{{|\n|-\n| {m}\n|}}", f"{{|\n|+ {m}\n|-\n| a\n|}}",
+            f"== {m} ==", f"<div>{m}</div>", f"<ul><li>{m}</ul>", f"a {m} b", f"<gallery>\nImage:x.png|{m}\n</gallery>", f"<ref>{m}</ref>",
+            f"<blockquote>{m}</blockquote>", f"<center>{m}</center>", f" {m}", f"<poem>{m}</poem>", f"[[Image:x.png|thumb|{m}]]"]
